@@ -27,10 +27,14 @@ def gen_init(rng, want_tensor=None, max_depth=3, ctors=None):
     depth = rng.randint(1, max_depth)
     tensor = rng.random() < 0.75 if want_tensor is None else want_tensor
     if depth > 1:
+        # multi-level trees are tensors: nothing says what the default of an interior level of a free fiber is
+        # (a single-coordinate insertion there stores a leaf among fibers), so free fibers are one level deep
         tensor = True if want_tensor is None else want_tensor
     ext = [rng.randint(1, 5) for _ in range(depth)]
     default = rng.choice([0, 0, 0, 7])
     dirty = rng.choice([0.0, 0.4, 0.7])
+    if not tensor and depth == 1 and want_tensor is None and rng.random() < 0.2:
+        default, dirty = None, 0.0      # the documented "no empty value" setting: insertions of absent coordinates are rejected
     spec = gen.rand_tree_spec(rng, ext, rng.choice([0.3, 0.6, 0.9]), dirty if tensor or depth == 1 else 0.0, default)
     init = {"depth": depth, "ext": ext, "default": default, "spec": spec, "own": "tensor" if tensor else "free",
             "shape": [e + rng.choice([0, 0, 2]) for e in ext] if rng.random() < 0.8 else None,
@@ -480,7 +484,12 @@ def apply_op(ctx, op):
         src = gen.rand_tree_spec(r, [3, 3], 0.8, 0.0, d)
         if not src or not ctx.root.coords:
             return "skip"
-        ctx.root <<= gen.fiber_from_spec(src, d)
+        try:
+            ctx.root <<= gen.fiber_from_spec(src, d)
+        except BaseException as e:      # noqa  (rejected half-way, e.g. no default to create: still ends the history)
+            if isinstance(e, KeyboardInterrupt):
+                raise
+            H.unexpected(kind, ctx, e)
         ctx.hooks.quiescent("fiber_ilshift:deeper", ctx)
         raise StopHistory()
     if kind == "fiber_ilshift":
